@@ -217,6 +217,17 @@ fn gen_case<P: PT>(r: &mut Rng, which: u32, split: usize) -> (u64, Vec<u64>) {
     let f = P::F;
     let n = ncoef(which);
     let k = split.max(1);
+    if n >= 2 && r.chance(1, 8) {
+        // constructed rounding trap (gen::fused_trap): all coefficients zero except the last two,
+        // so the value is c[n-2]*x + c[n-1] = rounding boundary +- a residue in the far bits of
+        // the quire; every earlier stage yields exactly zero
+        if let Some([a, b, c]) = gen::fused_trap(r, f) {
+            let mut words = vec![0u64; n * k];
+            words[(n - 2) * k] = b;
+            words[(n - 1) * k] = c;
+            return (a, words);
+        }
+    }
     let x = match r.below(8) {
         0..=4 => gen::pat(r, f),
         5 => {
